@@ -1,6 +1,7 @@
 import Driver.CdrFileIO
 import Driver.DiamIO
 import Driver.ChargingIO
+import Driver.ConvIO
 /-
   Line-protocol driver: one operation per input line, one canonical line per operation.
   The first token selects the stream (model); stateful streams keep their state in `DState`.
@@ -19,6 +20,7 @@ def step (s : DState) (line : String) : DState × String :=
   | "abmf" :: t => let (a, o) := abmfOp s.abmf t; ({ s with abmf := a }, o)
   | "rf" :: t => let (a, o) := rfOp s.rf t; ({ s with rf := a }, o)
   | "chf" :: t => let (a, o) := chfOp noSplit s.chf t; ({ s with chf := a }, o)
+  | "conv" :: t => (s, convOp t)
   | "abmfjudge" :: t => (s, abmfJudge t)
   | "rfjudge" :: t => (s, rfJudge t)
   | _ => (s, "bad-op")
